@@ -166,6 +166,12 @@ def gen_c03(rng, tier):
         key = rbytes(rng, 16); r = rng.randint(5, 8); mode = rng.randint(0, 1)
         s.add("mk setkey %d %s 16 %d %d" % (m, hexs(key), r, mode))
         s.add("mp setkey %d %s 16 %d %d" % (p, hexs(key), r, mode))
+        # both objects still hold the tweak of the previous iteration: keying afresh must give the zero tweak in
+        # either mode, so the other mode inverts this one before any tweak is set
+        b0 = rbytes(rng, 8)
+        a0 = s.add("mk crypt %d %s" % (m, hexs(b0)))
+        s.add("mk setkey %d %s 16 %d %d" % (m2, hexs(key), r, 1 - mode))
+        r_ = s.add("mk crypt %d @%d" % (m2, a0)); meta.append((r_, hexs(b0)))
         tw = rbytes(rng, 8)
         s.add("mk settweak %d %s 8" % (m, hexs(tw)))
         b = rbytes(rng, 8)
@@ -357,6 +363,10 @@ def gen_c05_one(rng, kind, be, tier, with_rekey=False, with_invalid=False):
     n = 10 if tier == "quick" else 60
     ctrs = carry_counters(rng, bs)
     rng.shuffle(ctrs)
+    # every object sees a NULL counter with a non-zero size, a NULL counter with the full size and a short counter
+    # (ctrs[0] is unused: the first stream starts from the post-init counter)
+    ctrs = [ctrs[0], (None, rng.randint(1, bs - 1)), (None, bs), (rbytes(rng, rng.randint(1, bs - 1)), None)] + ctrs
+    ctrs[3] = (ctrs[3][0], len(ctrs[3][0]))
     first = True
     for it in range(n):
         keyl = ctr_setkey_lines(rng, kind, a) if (it == 0 or rng.random() < 0.5) else []
@@ -379,10 +389,21 @@ def gen_c05_one(rng, kind, be, tier, with_rekey=False, with_invalid=False):
             opt = rng.choice(["", "", " inplace", " ai=%d ao=%d" % (rng.randrange(32), rng.randrange(32))])
             calls.append(s.add("%s crypt %d %s %d%s" % (kind, a, hexs(data[pos:pos + c_]), c_, opt)))
             pos += c_
-            if with_invalid and rng.random() < 0.15:
-                s.add(rng.choice(["%s crypt %d - 5" % (kind, a), "%s crypt %d 0011 2 outnull" % (kind, a),
-                                  "%s setctr %d 00 %d" % (kind, a, bs + 1), "%s crypt - 00 1" % kind,
-                                  "%s setkey %d - %d" % (kind, a, bs) if kind != "mc" else "mc setkey %d - 16 5" % a]))
+            if with_invalid and rng.random() < 0.3:
+                # rejected calls in the middle of a stream (buffered key stream present): nothing may change
+                bad = ["%s crypt %d - 5" % (kind, a), "%s crypt %d 0011 2 outnull" % (kind, a),
+                       "%s setctr %d 00 %d" % (kind, a, bs + 1), "%s crypt - 00 1" % kind]
+                if kind == "mc":
+                    bad += ["mc setkey %d - 16 5" % a, "mc setkey %d %s 16 9" % (a, hexs(rbytes(rng, 16))),
+                            "mc setkey %d %s 16 4" % (a, hexs(rbytes(rng, 16))), "mc setkey %d %s 15 6" % (a, hexs(rbytes(rng, 15))),
+                            "mc settweak %d %s 7" % (a, hexs(rbytes(rng, 7))), "mc settweak %d %s 9" % (a, hexs(rbytes(rng, 9)))]
+                else:
+                    bad += ["%s setkey %d - %d" % (kind, a, bs), "%s setkey %d %s %d" % (kind, a, hexs(rbytes(rng, bs - 1)), bs - 1),
+                            "%s setkey %d %s %d" % (kind, a, hexs(rbytes(rng, 3 * bs + 1)), 3 * bs + 1),
+                            "%s settk %d %s %d" % (kind, a, hexs(rbytes(rng, 2 * bs + 1)), 2 * bs + 1),
+                            "%s settk %d - %d" % (kind, a, bs), "%s settweak %d %s %d" % (kind, a, hexs(rbytes(rng, bs + 1)), bs + 1),
+                            "%s settweak %d 00 0" % (kind, a)]
+                s.add(rng.choice(bad))
         meta.append(("stream", calls, ref))
         if with_rekey and rng.random() < 0.6:
             # key or tweak change in the middle of the stream, no counter set: see C06 / known finding
@@ -994,17 +1015,22 @@ def gen_c19(rng, tier):
         a = S(); c = S(); pairs = []; refs = []
         a.add("new %s 1" % cls); k = c.new("c128"); kk = c.new("t128" if tweaked else "k128")
         c.add("cfg backend " + rng.choice(["def", "v128", "v256"])); c.add("c128 init %d" % k)
-        for _ in range(max(4, n // 3)):
-            key = rbytes(rng, ksz); a.add("1 setkey %s" % hexs(key))
-            c.add("c128 %s %d %s %d" % ("settk" if tweaked else "setkey", k, hexs(key), ksz))
-            c.add("%s %s %d %s %d" % ("t128" if tweaked else "k128", "settk" if tweaked else "setkey", kk, hexs(key), ksz))
+        for it_ in range(max(4, n // 3)):
+            key = rbytes(rng, ksz)
             iv = bytearray(rbytes(rng, 16)); nff = rng.choice([0, 0, 1, 2, 5, 15, 16])
             for i in range(nff): iv[15 - i] = 0xff
-            csize = rng.choice([16, 16, 16, 1, 2, 4, 8, 15]) 
+            csize = rng.choice([16, 16, 16, 1, 2, 4, 8, 15])
+            iv_first = (it_ % 3 == 1)                 # the IV may be installed before the key: no key stream may be made from the old key
+            def put_key():
+                a.add("1 setkey %s" % hexs(key))
+                c.add("c128 %s %d %s %d" % ("settk" if tweaked else "setkey", k, hexs(key), ksz))
+                c.add("%s %s %d %s %d" % ("t128" if tweaked else "k128", "settk" if tweaked else "setkey", kk, hexs(key), ksz))
+            if not iv_first: put_key()
             a.add("1 setctrsize %d" % csize)
             if rng.random() < 0.15: a.add("1 setctrsize %d" % rng.choice([0, 17, 100]))
             if rng.random() < 0.15: a.add("1 setiv %s" % hexs(rbytes(rng, rng.choice([0, 8, 15, 17]))))
             a.add("1 setiv %s" % hexs(bytes(iv))); c.add("c128 setctr %d %s 16" % (k, hexs(bytes(iv))))
+            if iv_first: put_key()
             total = rng.choice([0, 1, 15, 16, 17, 31, 33, 64, rng.randint(0, 300)]); data = rbytes(rng, total)
             pos = 0; alines = []; clines = []
             for n_ in cut_list(rng, total, 16, 16):
